@@ -2,7 +2,6 @@ package vuego
 
 import (
 	"fmt"
-	"html"
 	"io"
 	"strings"
 	"sync"
@@ -22,9 +21,9 @@ func containsInterpolation(input string) bool {
 	return open == close && open > 0
 }
 
-// interpolateToWriter writes interpolated values to w, escaping for HTML safety.
+// interpolateToWriter writes input to w with every {{ expression }} replaced by its value.
 // This is the core implementation that does not allocate a string result.
-// For script and style tags, values are not HTML-escaped.
+// Values are not escaped here: the serialiser escapes text nodes and attribute values.
 func (v *Vue) interpolateToWriter(ctx VueContext, w io.Writer, input string) error {
 	if !strings.Contains(input, "{{") {
 		_, err := io.WriteString(w, input)
@@ -90,26 +89,10 @@ func (v *Vue) interpolateToWriter(ctx VueContext, w io.Writer, input string) err
 		}
 
 		if val != nil {
-			// Escape value for HTML output (unless in a script/style tag)
-			valStr := fmt.Sprint(val)
-			parentTag := ctx.CurrentTag()
-			// Skip escaping inside script and style tags, since they contain code/CSS, not HTML
-			if parentTag == "script" || parentTag == "style" {
-				if _, err := io.WriteString(w, valStr); err != nil {
-					return err
-				}
-			} else {
-				// Skip escaping if the string doesn't contain special characters
-				// (avoids allocation in html.EscapeString for most cases)
-				if !helpers.NeedsHTMLEscape(valStr) {
-					if _, err := io.WriteString(w, valStr); err != nil {
-						return err
-					}
-				} else {
-					if _, err := io.WriteString(w, html.EscapeString(valStr)); err != nil {
-						return err
-					}
-				}
+			// The value is substituted as it is: text and attribute values are
+			// escaped once, by the serialiser, when the document is written
+			if _, err := io.WriteString(w, fmt.Sprint(val)); err != nil {
+				return err
 			}
 		}
 
@@ -124,9 +107,8 @@ func (v *Vue) interpolateToWriter(ctx VueContext, w io.Writer, input string) err
 	return nil
 }
 
-// interpolate escapes interpolated values for HTML safety.
+// interpolate replaces every {{ expression }} of input by its value.
 // Uses a buffer pool to minimize allocations.
-// For script and style tags, values are not HTML-escaped.
 func (v *Vue) interpolate(ctx VueContext, input string) (string, error) {
 	buf := bufferPool.Get().(*strings.Builder)
 	defer func() {
